@@ -14,7 +14,7 @@ import (
 func init() {
 	register("C08", &propDef{
 		Title: "A finished bundle contains everything that was added or discovered",
-		Rules: []func(*Checker){ruleC08NoDrop, ruleC08Drain, ruleC08Callbacks, ruleC08Manifest, ruleC08SameJoin, ruleC08Lookup, ruleC08Meta, ruleCopiedWhenEmpty("C08.metacopy"), ruleGuardOwnField("C08.metaguard"), ruleArgOrder("C08.argorder"), ruleTracerNonNil("C08.tracer"), ruleNameAgreement("C08.names", "sourcebundle"), ruleC08DirName, ruleRecordComplete("C08.complete"), ruleLiteralAgreement("C08.fields", "sourcebundle", nil), ruleMapFieldsMade("C08.mapinit"), ruleCtorParamsUsed("C08.ctorparams"), ruleFetchMemoOnly("C08.fetchmemo"), ruleSameKeyForm("C08.keyform"), ruleExhaustiveTypeSwitch("C08.exhaustive"), ruleLoopVarAddrKept("C08.loopvar", "/sourcebundle"), aliasRule(ruleC11JoinOrder, "C11.joinorder", "C08.finaladdr", 3)},
+		Rules: []func(*Checker){ruleC08NoDrop, ruleC08Drain, ruleC08Callbacks, ruleC08Manifest, ruleC08SameJoin, ruleC08Lookup, ruleC08Meta, ruleCopiedWhenEmpty("C08.metacopy"), ruleGuardOwnField("C08.metaguard"), ruleArgOrder("C08.argorder"), ruleTracerNonNil("C08.tracer"), ruleNameAgreement("C08.names", "sourcebundle"), ruleC08DirName, ruleRecordComplete("C08.complete"), ruleLiteralAgreement("C08.fields", "sourcebundle", nil), ruleMapFieldsMade("C08.mapinit"), ruleCtorParamsUsed("C08.ctorparams"), ruleFetchMemoOnly("C08.fetchmemo"), ruleSameKeyForm("C08.keyform"), ruleExhaustiveTypeSwitch("C08.exhaustive"), ruleLoopVarAddrKept("C08.loopvar", "/sourcebundle"), ruleDeprecationKeptWhole("C08.notekept"), aliasRule(ruleC11JoinOrder, "C11.joinorder", "C08.finaladdr", 3)},
 		NotDecided: []string{
 			"transitive closure over arbitrary dependency graphs and the content of fetched files (run-time facts)",
 			"that looked-up paths exist on disk",
@@ -45,7 +45,7 @@ func init() {
 	})
 	register("C17", &propDef{
 		Title: "Registry sources resolve to the newest allowed version",
-		Rules: []func(*Checker){ruleC17Dep, ruleC17None, ruleC17Final, ruleCtxNonNil("C17.ctx"), ruleDeprecationKeptWhole("C17.notekept"), ruleSelectionBeforeAnswer("C17.selected"), ruleLoopVarAddrKept("C17.loopvar", "/sourcebundle")},
+		Rules: []func(*Checker){ruleC17Dep, ruleC17None, ruleC17Final, ruleCtxNonNil("C17.ctx"), ruleDeprecationKeptWhole("C17.notekept"), ruleSelectionBeforeAnswer("C17.selected"), ruleLoopVarAddrKept("C17.loopvar", "/sourcebundle"), aliasRuleFiltered(ruleC08NoDrop, "C08.nodrop", "C17.nodrop", 1, func(o Oblig) bool { return strings.Contains(o.Key, "pendingRegistry") })},
 		NotDecided: []string{
 			"which version is newest (ordering inside go-versions, trusted library)",
 			"'first listed' vs 'newest' when both depend on the same inputs is only caught through the library-callee identity",
